@@ -683,4 +683,287 @@ theorem endMergeWith_discard_missing (b : Bool) (st : State) (r : Running)
   · rfl
   · simp [hu, hc]
 
+/-! ### updater: `advance_deletes` algebra -/
+
+/-- a doc is hit by one of the operations -/
+def killedBy (ops : List DelOp) (d : DocRec) : Bool := ops.any fun op => hits op d
+
+theorem applyOp_length (docs : List DocRec) (al : List Bool) (op : DelOp)
+    (h : docs.length = al.length) : (applyOp docs al op).length = docs.length := by
+  simp [applyOp, h]
+
+theorem liveDocs_applyOp (docs : List DocRec) (al : List Bool) (op : DelOp)
+    (h : docs.length = al.length) :
+    liveDocs docs (applyOp docs al op) = (liveDocs docs al).filter fun d => !hits op d := by
+  induction docs generalizing al with
+  | nil => cases al <;> simp [liveDocs]
+  | cons d ds ih =>
+    cases al with
+    | nil => simp at h
+    | cons a as =>
+      simp at h
+      have ih' := ih as h
+      simp only [applyOp, List.zip_cons_cons, List.map_cons] at ih' ⊢
+      cases a <;> cases hh : hits op d <;> simp [liveDocs, ih', hh]
+
+theorem liveDocs_foldl_applyOp (ops : List DelOp) (docs : List DocRec) (al : List Bool)
+    (h : docs.length = al.length) :
+    liveDocs docs (ops.foldl (applyOp docs) al) = (liveDocs docs al).filter fun d => !killedBy ops d := by
+  induction ops generalizing al with
+  | nil =>
+    simp only [List.foldl_nil, killedBy, List.any_nil, Bool.not_false]
+    exact (List.filter_eq_self.2 (fun _ _ => rfl)).symm
+  | cons op rest ih =>
+    simp only [List.foldl_cons]
+    rw [ih _ (by rw [applyOp_length docs al op h]), liveDocs_applyOp docs al op h, List.filter_filter]
+    congr 1
+    funext d
+    simp [killedBy, List.any_cons, Bool.and_comm]
+
+theorem liveDocs_advance (q : List DelOp) (e : Entry) (t : Nat) (h : e.docs.length = e.alive.length) :
+    liveDocs (advance q e t).docs (advance q e t).alive
+      = (liveDocs e.docs e.alive).filter fun d => !killedBy (consumed q e.cursor t) d := by
+  simp only [advance]
+  exact liveDocs_foldl_applyOp _ _ _ h
+
+theorem advance_wf (q : List DelOp) (e : Entry) (t : Nat) (h : e.docs.length = e.alive.length) :
+    (advance q e t).docs.length = (advance q e t).alive.length := by
+  simp only [advance]
+  generalize consumed q e.cursor t = ops
+  induction ops generalizing e with
+  | nil => simpa using h
+  | cons op rest ih =>
+    simp only [List.foldl_cons]
+    have := ih { e with alive := applyOp e.docs e.alive op } (by simp [applyOp, h])
+    simpa using this
+
+theorem takeWhile_weaken {α} (p1 p2 : α → Bool) (l : List α) (h : ∀ x, p1 x = true → p2 x = true) :
+    l.takeWhile p2 = l.takeWhile p1 ++ (l.dropWhile p1).takeWhile p2 := by
+  induction l with
+  | nil => rfl
+  | cons a as ih =>
+    by_cases h1 : p1 a = true
+    · simp [h1, h a h1, ih]
+    · simp [h1]
+
+theorem drop_takeWhile_length {α} (p : α → Bool) (l : List α) :
+    l.drop (l.takeWhile p).length = l.dropWhile p := by
+  induction l with
+  | nil => rfl
+  | cons a as ih =>
+    by_cases h : p a = true <;> simp [h, ih]
+
+/-- consuming up to `t1` and then up to `t2 ≥ t1` is consuming up to `t2` -/
+theorem consumed_split (q : List DelOp) (c t1 t2 : Nat) (h : t1 ≤ t2) :
+    consumed q c t2 = consumed q c t1 ++ consumed q (c + (consumed q c t1).length) t2 := by
+  unfold consumed
+  rw [takeWhile_weaken (fun op => decide (op.opstamp ≤ t1)) (fun op => decide (op.opstamp ≤ t2))
+    (q.drop c) (fun x hx => by simp at hx ⊢; omega)]
+  congr 2
+  rw [← List.drop_drop, drop_takeWhile_length]
+
+theorem killedBy_append (a b : List DelOp) (d : DocRec) :
+    killedBy (a ++ b) d = (killedBy a d || killedBy b d) := by
+  simp [killedBy, List.any_append]
+
+/-- `advance_deletes` composes: advancing to `t1` and later to `t2 ≥ t1` = advancing to `t2` -/
+theorem liveDocs_advance_advance (q : List DelOp) (e : Entry) (t1 t2 : Nat) (h : t1 ≤ t2)
+    (hwf : e.docs.length = e.alive.length) :
+    liveDocs (advance q (advance q e t1) t2).docs (advance q (advance q e t1) t2).alive
+      = liveDocs (advance q e t2).docs (advance q e t2).alive := by
+  rw [liveDocs_advance q (advance q e t1) t2 (advance_wf q e t1 hwf), liveDocs_advance q e t1 hwf,
+    liveDocs_advance q e t2 hwf, List.filter_filter, consumed_split q e.cursor t1 t2 h]
+  congr 1
+  funext d
+  have : (advance q e t1).cursor = e.cursor + (consumed q e.cursor t1).length := rfl
+  rw [this, killedBy_append]
+  cases killedBy (consumed q e.cursor t1) d <;> simp
+
+theorem advance_cursor (q : List DelOp) (e : Entry) (t : Nat) :
+    (advance q e t).cursor = e.cursor + (consumed q e.cursor t).length := rfl
+
+theorem advance_docs (q : List DelOp) (e : Entry) (t : Nat) : (advance q e t).docs = e.docs := rfl
+
+/-- all sources sit at the same queue position after advancing to the target -/
+def SameCursor (q : List DelOp) (srcs : List Entry) (target c0 : Nat) : Prop :=
+  ∀ e ∈ srcs, (advance q e target).cursor = c0
+
+theorem filter_flatten {α} (p : α → Bool) (ls : List (List α)) :
+    ls.flatten.filter p = (ls.map (List.filter p)).flatten := by
+  induction ls with
+  | nil => rfl
+  | cons l rest ih => simp [List.filter_append, ih]
+
+/-- KEY LEMMA. The merged entry (live docs of the sources advanced to the target, all alive,
+cursor `c0`) advanced to any later opstamp `T` holds exactly the documents the sources hold when
+advanced to `T` themselves — provided the sources share the cursor `c0`. -/
+theorem merged_covers (q : List DelOp) (srcs : List Entry) (target newId c0 T : Nat) (m : Entry)
+    (hm : mergeEntries q srcs target newId = some m)
+    (hwf : ∀ e ∈ srcs, e.docs.length = e.alive.length)
+    (hsame : SameCursor q srcs target c0) (hT : target ≤ T) :
+    liveUids (advance q m T) = (srcs.map fun e => liveUids (advance q e T)).flatten := by
+  unfold mergeEntries at hm
+  split at hm
+  · cases hm
+  · rename_i hne
+    simp only [Option.some.injEq] at hm
+    have hcur : m.cursor = c0 := by
+      rw [← hm]
+      cases srcs with
+      | nil => simp at hne
+      | cons e rest => simpa using hsame e (by simp)
+    have hdocs : m.docs = ((srcs.map fun e => advance q e target).map fun e => liveDocs e.docs e.alive).flatten := by
+      rw [← hm]
+    have halive : m.alive = List.replicate m.docs.length true := by rw [← hm]
+    have hmwf : m.docs.length = m.alive.length := by rw [halive]; simp
+    unfold liveUids
+    rw [liveDocs_advance q m T hmwf, halive, liveDocs_replicate_true, hdocs, filter_flatten,
+      List.map_flatten, hcur]
+    congr 1
+    simp only [List.map_map]
+    apply List.map_congr_left
+    intro e he
+    simp only [Function.comp]
+    rw [← liveDocs_advance_advance q e target T hT (hwf e he),
+      liveDocs_advance q (advance q e target) T (advance_wf q e target (hwf e he)), hsame e he]
+
+theorem advance_of_consumed_nil (q : List DelOp) (e : Entry) (t : Nat)
+    (h : consumed q e.cursor t = []) : advance q e t = e := by
+  cases e
+  simp_all [advance]
+
+/-- the reconciliation branch is `advance_deletes` to the committed opstamp (opstamps are unique:
+no delete carries the commit's own opstamp) -/
+theorem reconcile_eq_advance (st : State) (m : Entry)
+    (hne : ∀ op ∈ st.queue, op.opstamp ≠ st.committedOpstamp) :
+    reconcile st m = advance st.queue m st.committedOpstamp := by
+  unfold reconcile
+  cases hq : st.queue[m.cursor]? with
+  | none =>
+    simp only
+    symm
+    apply advance_of_consumed_nil
+    have : st.queue.length ≤ m.cursor := by
+      rcases Nat.lt_or_ge m.cursor st.queue.length with h | h
+      · rw [List.getElem?_eq_getElem h] at hq; cases hq
+      · exact h
+    simp [consumed, List.drop_eq_nil_of_le this]
+  | some op =>
+    simp only
+    by_cases hlt : op.opstamp < st.committedOpstamp
+    · simp [hlt]
+    · simp only [hlt, if_false]
+      symm
+      apply advance_of_consumed_nil
+      have hmem : op ∈ st.queue := List.mem_of_getElem? hq
+      have hgt : ¬ op.opstamp ≤ st.committedOpstamp := by
+        have := hne op hmem; omega
+      have hd : st.queue.drop m.cursor = op :: st.queue.drop (m.cursor + 1) := by
+        have hl : m.cursor < st.queue.length := (List.getElem?_eq_some_iff.1 hq).1
+        rw [List.drop_eq_getElem_cons hl, (List.getElem?_eq_some_iff.1 hq).2]
+      simp [consumed, hd, hgt]
+
+theorem liveUids_advance_of_empty (q : List DelOp) (e : Entry) (t : Nat)
+    (hwf : e.docs.length = e.alive.length) (h : (liveUids e).length = 0) :
+    liveUids (advance q e t) = [] := by
+  unfold liveUids at h ⊢
+  rw [liveDocs_advance q e t hwf]
+  have : liveDocs e.docs e.alive = [] := by
+    simpa using h
+  simp [this]
+
+theorem sum_eq_zero_mem (l : List Nat) (h : l.sum = 0) : ∀ x ∈ l, x = 0 := by
+  induction l with
+  | nil => simp
+  | cons a as ih =>
+    simp only [List.sum_cons] at h
+    intro x hx
+    rw [List.mem_cons] at hx
+    rcases hx with rfl | hx
+    · omega
+    · exact ih (by omega) x hx
+
+theorem flatten_filter_split {α β} (f : α → List β) (p : α → Bool) (l : List α) :
+    (((l.filter fun x => !p x).map f).flatten ++ ((l.filter p).map f).flatten).Perm (l.map f).flatten := by
+  induction l with
+  | nil => simp
+  | cons a as ih =>
+    cases hp : p a
+    · simp only [List.filter_cons, hp, Bool.not_false, if_true, Bool.false_eq_true, if_false,
+        List.map_cons, List.flatten_cons, List.append_assoc]
+      exact List.Perm.append_left (f a) ih
+    · simp only [List.filter_cons, hp, Bool.not_true, Bool.false_eq_true, if_false, if_true,
+        List.map_cons, List.flatten_cons]
+      refine List.Perm.trans ?_ (List.Perm.append_left (f a) ih)
+      rw [← List.append_assoc, ← List.append_assoc]
+      exact List.Perm.append_right _ List.perm_append_comm
+
+/-- content of a merged entry after reconciliation = content of its sources advanced to the
+committed opstamp (`none`: the sources held no live doc) -/
+theorem merged_content (st : State) (srcs : List Entry) (target newId c0 : Nat)
+    (hwf : ∀ e ∈ srcs, e.docs.length = e.alive.length)
+    (hsame : SameCursor st.queue srcs target c0) (htc : target ≤ st.committedOpstamp)
+    (hne : ∀ op ∈ st.queue, op.opstamp ≠ st.committedOpstamp) :
+    ((((mergeEntries st.queue srcs target newId).map (reconcile st)).toList).map liveUids).flatten
+      = (srcs.map fun e => liveUids (advance st.queue e st.committedOpstamp)).flatten := by
+  cases hm : mergeEntries st.queue srcs target newId with
+  | none =>
+    simp only [Option.map_none, Option.toList_none, List.map_nil, List.flatten_nil]
+    unfold mergeEntries at hm
+    split at hm
+    · rename_i hz
+      symm
+      rw [List.flatten_eq_nil_iff]
+      intro l hl
+      simp only [List.mem_map] at hl
+      obtain ⟨e, he, rfl⟩ := hl
+      apply liveUids_advance_of_empty _ _ _ (hwf e he)
+      exact sum_eq_zero_mem _ hz _ (List.mem_map.2 ⟨e, he, rfl⟩)
+    · cases hm
+  | some m =>
+    simp only [Option.map_some, Option.toList_some, List.map_cons, List.map_nil, List.flatten_cons,
+      List.flatten_nil, List.append_nil]
+    rw [reconcile_eq_advance st m hne]
+    exact merged_covers st.queue srcs target newId c0 st.committedOpstamp m hm hwf hsame htc
+
+theorem mergeEntries_wf (q : List DelOp) (srcs : List Entry) (target newId : Nat) (m : Entry)
+    (hm : mergeEntries q srcs target newId = some m) : m.docs.length = m.alive.length := by
+  unfold mergeEntries at hm
+  split at hm
+  · cases hm
+  · simp only [Option.some.injEq] at hm
+    rw [← hm]; simp
+
+/-- what a commit at `T` would publish from a merged entry (after the reconciliation step) =
+what it would publish from the sources -/
+theorem merged_pending (st : State) (srcs : List Entry) (target newId c0 T : Nat)
+    (hwf : ∀ e ∈ srcs, e.docs.length = e.alive.length)
+    (hsame : SameCursor st.queue srcs target c0) (hT : target ≤ T) (hcT : st.committedOpstamp ≤ T)
+    (hne : ∀ op ∈ st.queue, op.opstamp ≠ st.committedOpstamp) :
+    ((((mergeEntries st.queue srcs target newId).map (reconcile st)).toList).map
+        fun e => liveUids (advance st.queue e T)).flatten
+      = (srcs.map fun e => liveUids (advance st.queue e T)).flatten := by
+  cases hm : mergeEntries st.queue srcs target newId with
+  | none =>
+    simp only [Option.map_none, Option.toList_none, List.map_nil, List.flatten_nil]
+    unfold mergeEntries at hm
+    split at hm
+    · rename_i hz
+      symm
+      rw [List.flatten_eq_nil_iff]
+      intro l hl
+      simp only [List.mem_map] at hl
+      obtain ⟨e, he, rfl⟩ := hl
+      apply liveUids_advance_of_empty _ _ _ (hwf e he)
+      exact sum_eq_zero_mem _ hz _ (List.mem_map.2 ⟨e, he, rfl⟩)
+    · cases hm
+  | some m =>
+    simp only [Option.map_some, Option.toList_some, List.map_cons, List.map_nil, List.flatten_cons,
+      List.flatten_nil, List.append_nil]
+    rw [reconcile_eq_advance st m hne]
+    have hmwf := mergeEntries_wf st.queue srcs target newId m hm
+    unfold liveUids
+    rw [liveDocs_advance_advance st.queue m st.committedOpstamp T hcT hmwf]
+    exact merged_covers st.queue srcs target newId c0 T m hm hwf hsame hT
+
 end TantivyModel.Merge
